@@ -328,3 +328,21 @@ Theorem C13_nonvacuous_redirect :
   serve_decision w_decode nv3_find repo_now nv2_req = serve_envoy w_decode nv3_find repo_now nv2_req.
 Proof. exact nonvacuous_redirect. Qed.
 Print Assumptions C13_nonvacuous_redirect.
+
+(** ------------------------------------------------------------------ the decision service as deployed *)
+(** Described by X-Forwarded-Method / -Proto / -Host / -Uri from a trusted proxy (how an API gateway uses
+    the decision service) a logical request gives the same method, scheme, host, path and query as when
+    a service receives it directly, unless the query is not its own re-encoding (C13-F10) *)
+Theorem C13_deployed_decision_same_url : forall L,
+  wf_lreqb L = true -> nonempty (l_method L) = true -> g_F10 L = false ->
+  url_parts (view_tp L) = url_parts (view_direct L).
+Proof. exact deployed_decision_same_url. Qed.
+Print Assumptions C13_deployed_decision_same_url.
+
+Theorem C13_F10_refuted :
+  wf_lreqb (w10_req "b=2&a=1") = true /\ g_F10 (w10_req "b=2&a=1") = true /\
+  v_query (view_direct (w10_req "b=2&a=1")) = "b=2&a=1"%string /\ v_query (view_tp (w10_req "b=2&a=1")) = "a=1&b=2"%string /\
+  v_query (view_tp (w10_req "q=a%20b")) = "q=a+b"%string /\ v_query (view_tp (w10_req "a=1;b=2")) = ""%string /\
+  g_F10 (w10_req "a=1&b=2") = false /\ url_parts (view_tp (w10_req "a=1&b=2")) = url_parts (view_direct (w10_req "a=1&b=2")).
+Proof. exact F10_refuted. Qed.
+Print Assumptions C13_F10_refuted.
